@@ -204,9 +204,12 @@ class Worker(courier_utils.CourierClient):
         self._worker_pool = worker_pool
       return self._worker_pool is worker_pool
 
-  def release(self):
-    """Releases the worker."""
+  def release(self, worker_pool: WorkerPool | None = None):
+    """Releases the worker, with `worker_pool` only when that pool owns it."""
     with self._states_lock:
+      if worker_pool is not None and self._worker_pool is not worker_pool:
+        # Free, or acquired by another pool since the caller looked.
+        return
       if self._lock.locked():
         self._lock.release()
       self._worker_pool = None
@@ -282,7 +285,7 @@ class WorkerPool:
     workers = workers or self._workers
     for worker in workers:
       if worker.is_available(self):
-        worker.release()
+        worker.release(self)
 
   def wait_until_alive(
       self,
